@@ -21,7 +21,7 @@ LEVEL_TEXT["C02"] = (
 
 PROPS["C02"] = {
     "gen": [],
-    "lean_props": "DspVerif.Props.C02",
+    "lean_props": ["DspVerif.Props.C02", "DspVerif.Props.C02Total"],
     "harness": [{"src": "c02.cpp", "cfg": "rel",
                  "tol": {"*": (1e-11, 0.0), "ifft": (1e-10, 0.0), "irfft": (1e-10, 0.0), "ifftg": (1e-9, 0.0), "irfftg": (1e-9, 0.0)}},
                 {"src": "c02.cpp", "cfg": "asan", "tiers": ["thorough"],
